@@ -60,9 +60,14 @@ class Ctx:
         except FileNotFoundError:
             return {}
         out = {}
+        self.kf_rx = []
+        import re
         for e in d.get("findings", []):
             if e.get("property") == self.pid and e.get("status") == "open":
-                out[e["key"]] = e
+                if "key_regex" in e:
+                    self.kf_rx.append((re.compile(e["key_regex"]), e))
+                else:
+                    out[e["key"]] = e
         return out
 
     def is_known(self, key):
@@ -98,6 +103,15 @@ class Ctx:
             if key not in self.known_hit:
                 self.known_hit[key] = what
             return False
+        for rx, e in getattr(self, "kf_rx", []):
+            if rx.match(key):
+                k = e.get("key", e["key_regex"])
+                if k not in self.known_hit:
+                    self.known_hit[k] = e.get("what", what)
+                self.extra.setdefault("known_finding_keys_matched", {}).setdefault(k, [])
+                if key not in self.extra["known_finding_keys_matched"][k]:
+                    self.extra["known_finding_keys_matched"][k].append(key)
+                return False
         for k, _, _ in self.violations:
             if k == key:
                 return True
